@@ -525,6 +525,75 @@ def peephole_guards(ctx):
     ctx.floor('push+conv fold sites', n_sites, 1)
 
 
+def dead_code_premises(ctx):
+    """The peephole pass deletes an instruction that follows a 'jump-like'
+    instruction or a halt.  That is sound only if the CPU handler of every
+    such instruction transfers control unconditionally and does not save
+    the fall-through address."""
+    repo = ctx.repo
+    rule = 'C02.dead-code-premise-unconditional-transfer'
+    ctx.rule(rule, 'every Op the peephole pass treats as making the next '
+             'instruction unreachable (the jump-like list, HALT) has a CPU '
+             'handler that assigns pc (or halts) on every normal path and '
+             'does not push the return address')
+    f = repo.func('qbee.qvm_codegen', 'QvmCode.optimize')
+    handlers, _, _ = R.cpu_handlers(repo)
+    mangling = R.op_mangling(repo)
+    # lists of Op members used as `X.op in <list> and Y.op in <list>`
+    from ..astutil import local_defs
+    lists = {}
+    for name, ds in local_defs(f.node).items():
+        for kind, v in ds:
+            if kind == 'assign' and isinstance(v, ast.List) and v.elts and \
+                    all(opsem.member_name(e) for e in v.elts):
+                lists[name] = [opsem.member_name(e) for e in v.elts]
+    jumpish = None
+    for n in ast.walk(f.node):
+        if isinstance(n, ast.If) and isinstance(n.test, ast.BoolOp) and \
+                isinstance(n.test.op, ast.And):
+            names = [c.comparators[0].id for c in n.test.values
+                     if isinstance(c, ast.Compare) and
+                     isinstance(c.ops[0], ast.In) and
+                     isinstance(c.comparators[0], ast.Name)]
+            if len(names) == 2 and names[0] == names[1] and \
+                    names[0] in lists and any(
+                        isinstance(s, ast.Delete) for s in n.body):
+                jumpish = lists[names[0]]
+    if jumpish is None:
+        raise AnalysisError('anchor vanished: jump-like list of the '
+                            'consecutive-jump elimination')
+    ctx.floor('jump-like ops', len(jumpish), 3)
+    for m in jumpish + ['HALT']:
+        h = handlers.get(R.mangle(m.lower(), mangling))
+        construct = f'{f.file}:QvmCode.optimize:unreachable-after[{m}]'
+        if h is None:
+            ctx.instance(rule, construct)
+            ctx.finding(rule, construct, f'Op.{m} has no CPU handler',
+                        f.file, f.line)
+            continue
+        cfg = build_cfg(h.node, repo_noreturn)
+
+        def sets(x, what):
+            return x.kind == 'stmt' and isinstance(x.ast, ast.Assign) and \
+                any(dotted(t) == what for t in x.ast.targets)
+        what = 'self.halted' if m == 'HALT' else 'self.pc'
+        uncond = cfg.must_pass(cfg.exit, lambda x: sets(x, what))
+        saves = any(isinstance(c, ast.Call) and dotted(c.func) == 'self.push'
+                    and len(c.args) == 2 and
+                    unparse(c.args[1]) == 'self.pc'
+                    for c in ast.walk(h.node))
+        ctx.instance(rule, construct, sample={'handler': h.qualname,
+                                              'unconditional': uncond,
+                                              'saves_return': saves})
+        if not uncond or saves:
+            ctx.finding(rule, construct,
+                        f'the peephole pass deletes the instruction after '
+                        f'{m.lower()}, but {h.qualname} '
+                        f'{"does not transfer control on every path" if not uncond else "saves the fall-through address"}'
+                        f': reachable code is removed at -O2', f.file,
+                        f.line)
+
+
 def run(ctx):
     ctx.clauses = [
         'folder == machine operator by operator (BinaryOp._eval_numeric, '
@@ -552,6 +621,7 @@ def run(ctx):
     level_independence(ctx)
     rounding_agreement(ctx)
     peephole_guards(ctx)
+    dead_code_premises(ctx)
     return ('Structural clauses of C02 decided on the current source: '
             'operator identity between the constant folder, the peephole '
             'tables and the CPU handlers; guard (try/except) on every '
